@@ -156,7 +156,17 @@ func VerifC06Resolve() {
 	vObserveInt("nodes", len(g.Nodes))
 	vObserveInt("edges", len(g.Edges))
 	vCover(len(g.Nodes) > 2, "a graph with several nodes")
+	// A node enters the graph together with the edge that installs it afresh: the first edge that leads to it.
+	// A `*` requirement that reuses a copy already installed takes whatever is there (also a prerelease).
+	created := make([]bool, len(g.Nodes))
 	for _, e := range g.Edges {
+		freshEdge := e.To != 0 && !created[e.To]
+		if freshEdge {
+			created[e.To] = true
+		}
+		if e.Requirement == "*" && !freshEdge {
+			continue
+		}
 		vAssert(c06Satisfies(ctx, lc, e.Requirement, g.Nodes[e.To].Version), "every edge leads to a version that satisfies the edge's requirement")
 	}
 	for ni, n := range g.Nodes {
